@@ -177,7 +177,6 @@ var _ = register("H_C20_keys", H_C20_keys)
 var _ = register("H_C20_evict", H_C20_evict)
 var _ = register("H_C20_identity", H_C20_identity)
 
-
 // H_C20_readfault: an identity created earlier signs through a keystore with a cold cache (restart) while the
 // datastore fails one read: signing either reports the failure or signs with the identity's key - the stored key
 // is never replaced and entries that Append/CreateEntry returned verify under the published key.
